@@ -200,6 +200,9 @@ func (s *shrinker) removeGroupsAndLower(deadline time.Time) {
 func (s *shrinker) sortGroups(deadline time.Time) {
 	for i := 1; i < len(s.rec.groups) && time.Now().Before(deadline); i++ {
 		for j := i; j > 0; {
+			if j >= len(s.rec.groups) {
+				break // an accepted swap left a recording with fewer groups
+			}
 			g := s.rec.groups[j]
 			if !g.standalone || g.end < 0 {
 				break
